@@ -21,21 +21,26 @@ FULL STATEMENT (`MeasurementWF`, `Spec/Scan.lean`), for every `all`:
       (∃ tk, code[k]? = some tk ∧ tk.isName = true ∧ m.name = tk.val) ∧
       1 ≤ m.len ∧ m.len ≤ countDistinct (((code.drop i).take (j + 1 - i)).map (·.line))
 
-It is FALSE in two ways:
-* for token lists whose positions are not in source order (`measurement_wf_fails_unordered`: a
-  TypeScript scope of length 0 that ends before it starts).  Lexer output is always in strictly
-  increasing position order (property C16), so this is a limitation of the model-level
-  statement only; all theorems below take that order as hypothesis `hpos`.
-* for Python, on position-ordered tokens (`measurement_wf_fails_python`, reproduced on the real
-  program): the name token can lie just outside a one-token span.
+It holds
+* for the six brace languages for EVERY token list (`measurement_wf_brace`), and
+* for all seven languages, Python included, when the code tokens are in strictly increasing
+  position order (`measurement_wf`, hypothesis `hpos`; lexer output always is, property C16).
 
-Proved: the full statement for the six brace languages (`measurement_wf_brace`) and the strongest
-variant for all seven (`measurement_wf_partial`: the only failure is `i = j ∧ k = j + 1` in
-Python); `line_order` (start before end), `source_order` (all seven languages, strictly
-increasing starts), `total_is_sum`, `child_inside_parent`.  None of these theorems depends on the
-assumed lemmas of `Lemmas/AssumedHeaders.lean` (they start from a successful `scanFile`; the
-header facts they need are proved in `Lemmas/ScanBoundsHeaders.lean` /
-`Lemmas/ScanBoundsHeaderStarts.lean` from C14 and decidable checks on the compiled patterns).
+Without `hpos` it is false for Python (`measurement_wf_fails_unordered`: with repeated /
+unordered positions `tokens.index` finds an earlier equal token and a Python block can end
+before it starts; the reported function has length 0).  What holds for every input in every
+language is `measurement_anchored`.
+
+History: on the first version of the model the statement was also false for Python on ordered
+tokens (the name token could lie just outside a one-token span; reproduced on the Python
+program).  `_find_scope_blocks_indices` was repaired (the "enclosing block" branch only takes
+blocks that start at or after the header's end); the old witness is kept as a regression
+`example` below.
+
+Also proved: `line_order` (start before end), `source_order` (all seven languages, strictly
+increasing starts), `total_is_sum`, `child_inside_parent`.  The header facts needed are proved in
+`Lemmas/ScanBoundsHeaders.lean` / `Lemmas/ScanBoundsHeaderStarts.lean` from C14 and decidable
+checks on the compiled patterns.
 -/
 namespace CL.C05
 
@@ -51,7 +56,7 @@ theorem code_tokens (all : List Tok) :
 /-- For EVERY token list (no assumption on positions): each measurement starts at the position of
 a code token `i`, ends just past a code token `j`, carries the text of a name token at `i` or
 `i + 1`, and its length is at most the number of distinct lines of tokens `i..j`.  (What can
-fail without position order is `i ≤ j`, `k ≤ j` and `1 ≤ len`, see
+fail for Python without position order is `i ≤ j`, `k ≤ j` and `1 ≤ len`, see
 `measurement_wf_fails_unordered`.) -/
 theorem measurement_anchored (L : Language) (hL : L ∈ Gen.all.map (·.2)) (all : List Tok)
     (ms : List Measurement) (h : scanFile L all = .ok ms) :
@@ -62,43 +67,29 @@ theorem measurement_anchored (L : Language) (hL : L ∈ Gen.all.map (·.2)) (all
       m.len ≤ countDistinct ((((filterTokens false all).drop i).take (j + 1 - i)).map (·.line)) :=
   scanFile_anchored L hL all h
 
-/-- On position-ordered code tokens every measurement starts at the position of a code token
-`i`, ends just past a code token `j ≥ i`, carries the text of a name token `k ≥ i`, and has
-`1 ≤ len ≤` number of distinct lines of tokens `i..j`.  The name token lies inside the span
-(`k ≤ j`) except possibly in Python, where it may be the token right after a one-token span. -/
-theorem measurement_wf_partial (L : Language) (hL : L ∈ Gen.all.map (·.2)) (all : List Tok)
+/-- shared proof of the two full statements -/
+private theorem measurement_wf_core (L : Language) (hL : L ∈ Gen.all.map (·.2)) (all : List Tok)
     (ms : List Measurement)
-    (hpos : (filterTokens false all).Pairwise
-      (fun a b => a.line < b.line ∨ (a.line = b.line ∧ a.col < b.col)))
+    (hp : L.python = false ∨ PosOrdered (filterTokens false all))
     (h : scanFile L all = .ok ms) :
-    ∀ m ∈ ms, ∃ i j k, i ≤ k ∧ k ≤ i + 1 ∧ i ≤ j ∧
-      (k ≤ j ∨ (L.python = true ∧ i = j ∧ k = j + 1)) ∧
-      j < (filterTokens false all).length ∧
-      (∃ ti, (filterTokens false all)[i]? = some ti ∧ (m.sl, m.sc) = (ti.line, ti.col)) ∧
-      (∃ tj, (filterTokens false all)[j]? = some tj ∧ (m.el, m.ec) = tj.endPos) ∧
-      (∃ tk, (filterTokens false all)[k]? = some tk ∧ tk.isName = true ∧ m.name = tk.val) ∧
-      1 ≤ m.len ∧
-      m.len ≤ countDistinct ((((filterTokens false all).drop i).take (j + 1 - i)).map (·.line)) := by
+    ∀ m ∈ ms, MeasurementWF (filterTokens false all) m := by
   intro m hm
   obtain ⟨p, first, last, hg, hf, hl, hn, hs, he, h1, h2⟩ :=
-    scanFile_measurements L hL all hpos h m hm
-  obtain ⟨k, hk1, hk2, hk3, hk4, hk5⟩ := hg.name
+    scanFile_measurements L hL all hp h m hm
+  obtain ⟨k, hk1, _, hk3, hk4, hk5⟩ := hg.name
   have hlt := hg.lt
   have hle := hg.le
-  refine ⟨p.1.hdr.rng.s, p.1.blk.e - 1, k, hk1, hk2, by omega, ?_, by omega, ⟨first, hf, hs⟩,
-    ⟨last, hl, he⟩, ⟨p.1.hdr.name, hk3, hk4, hn⟩, h1, ?_⟩
-  · cases hpy : L.python
-    · left; have := hk5 hpy; omega
-    · by_cases hkj : k ≤ p.1.blk.e - 1
-      · left; exact hkj
-      · right; exact ⟨rfl, by omega, by omega⟩
-  · rw [show p.1.blk.e - 1 + 1 - p.1.hdr.rng.s = p.1.blk.e - p.1.hdr.rng.s by omega]
-    exact h2
+  refine ⟨p.1.hdr.rng.s, p.1.blk.e - 1, k, hk1, by omega, by omega, ⟨first, hf, hs⟩,
+    ⟨last, hl, he⟩, ⟨p.1.hdr.name, hk4, hk5, hn⟩, h1, ?_⟩
+  rw [show p.1.blk.e - 1 + 1 - p.1.hdr.rng.s = p.1.blk.e - p.1.hdr.rng.s by omega]
+  exact h2
 
-/-- The full per-measurement statement for the brace languages (C, C++, C#, Java, JavaScript,
-TypeScript) on position-ordered code tokens. -/
-theorem measurement_wf_brace (L : Language) (hL : L ∈ Gen.all.map (·.2)) (hbrace : L.python = false)
-    (all : List Tok) (ms : List Measurement)
+/-- THE FULL per-measurement statement, for all seven shipped languages, on position-ordered code
+tokens: every measurement starts at the position of a code token `i`, ends just past a code
+token `j`, carries the text of a name token `k` with `i ≤ k ≤ j` (the name lies inside the
+span), and has `1 ≤ len ≤` number of distinct lines of tokens `i..j`. -/
+theorem measurement_wf (L : Language) (hL : L ∈ Gen.all.map (·.2)) (all : List Tok)
+    (ms : List Measurement)
     (hpos : (filterTokens false all).Pairwise
       (fun a b => a.line < b.line ∨ (a.line = b.line ∧ a.col < b.col)))
     (h : scanFile L all = .ok ms) :
@@ -107,34 +98,64 @@ theorem measurement_wf_brace (L : Language) (hL : L ∈ Gen.all.map (·.2)) (hbr
       (∃ tj, (filterTokens false all)[j]? = some tj ∧ (m.el, m.ec) = tj.endPos) ∧
       (∃ tk, (filterTokens false all)[k]? = some tk ∧ tk.isName = true ∧ m.name = tk.val) ∧
       1 ≤ m.len ∧
-      m.len ≤ countDistinct ((((filterTokens false all).drop i).take (j + 1 - i)).map (·.line)) := by
-  intro m hm
-  obtain ⟨i, j, k, h1, _, _, h3, h4, h5, h6, h7, h8, h9⟩ :=
-    measurement_wf_partial L hL all ms hpos h m hm
-  refine ⟨i, j, k, h1, ?_, h4, h5, h6, h7, h8, h9⟩
-  rcases h3 with h3 | ⟨hpy, _⟩
-  · exact h3
-  · rw [hbrace] at hpy; cases hpy
+      m.len ≤ countDistinct ((((filterTokens false all).drop i).take (j + 1 - i)).map (·.line)) :=
+  measurement_wf_core L hL all ms (.inr hpos) h
 
-/-! ## the full statement fails: witnesses -/
+/-- The full per-measurement statement for the brace languages (C, C++, C#, Java, JavaScript,
+TypeScript) holds for EVERY token list, without any assumption on positions. -/
+theorem measurement_wf_brace (L : Language) (hL : L ∈ Gen.all.map (·.2)) (hbrace : L.python = false)
+    (all : List Tok) (ms : List Measurement) (h : scanFile L all = .ok ms) :
+    ∀ m ∈ ms, ∃ i j k, i ≤ k ∧ k ≤ j ∧ j < (filterTokens false all).length ∧
+      (∃ ti, (filterTokens false all)[i]? = some ti ∧ (m.sl, m.sc) = (ti.line, ti.col)) ∧
+      (∃ tj, (filterTokens false all)[j]? = some tj ∧ (m.el, m.ec) = tj.endPos) ∧
+      (∃ tk, (filterTokens false all)[k]? = some tk ∧ tk.isName = true ∧ m.name = tk.val) ∧
+      1 ≤ m.len ∧
+      m.len ≤ countDistinct ((((filterTokens false all).drop i).take (j + 1 - i)).map (·.line)) :=
+  measurement_wf_core L hL all ms (.inl hbrace) h
+
+/-- every reported scope ends after its header: the token after the header (`{`, `:` ...) and at
+least one more block token belong to the span (brace languages: every input; Python: ordered
+positions) -/
+theorem scope_extends_past_header (L : Language) (hL : L ∈ Gen.all.map (·.2)) (all : List Tok)
+    (hp : L.python = false ∨ (filterTokens false all).Pairwise
+      (fun a b => a.line < b.line ∨ (a.line = b.line ∧ a.col < b.col)))
+    (scs : List (Scope × List Range)) (h : buildScopes L all = .ok scs) :
+    ∀ p ∈ scs, p.1.hdr.rng.s < p.1.hdr.rng.e ∧ p.1.hdr.rng.e < p.1.blk.e ∧
+      p.1.blk.e ≤ (filterTokens false all).length := by
+  intro p hp'
+  have hg := buildScopes_good L hL all hp h p hp'
+  obtain ⟨k, h1, _, h3, _⟩ := hg.name
+  exact ⟨by omega, hg.lt, hg.le⟩
+
+/-! ## why `hpos` is needed for Python; regression for the repaired defect -/
 
 open CL.Ex
 
-/-- TypeScript tokens `{ { } f ( ) : }` whose first `{` carries a position after all others -/
-def tsUnordered : List Tok :=
-  [puT [123] 5 1, puT [123] 1 2, puT [125] 1 3, nmT [102] 1 4, puT [40] 1 5, puT [41] 1 6,
-   opT [58] 1 7, puT [125] 1 8]
+/-- Python tokens with unordered and repeated positions: the first token is an exact copy
+(position, type, text) of the `pass` at index 18, and the "line numbers" are not increasing -/
+def pyUnordered : List Tok :=
+  [kwT [112,97,115,115] 200 9,
+   kwT [100,101,102] 100 5, nmT [97] 100 9, puT [40] 100 10, puT [41] 100 11, puT [58] 100 12,
+   kwT [100,101,102] 10 1, nmT [111] 10 5, puT [40] 10 6, puT [41] 10 7, puT [58] 10 8,
+   kwT [112,97,115,115] 15 3,
+   kwT [100,101,102] 20 3, nmT [103] 20 7, puT [40] 20 8, puT [41] 20 9,
+   puT [58] 1000 9,
+   nmT [120] 200 7, kwT [112,97,115,115] 200 9,
+   nmT [122] 300 3]
 
-/-- Without position order the statement fails (so `hpos` cannot be dropped): the blocks are
-sorted by position, the enclosing block `[0, 8)` is visited first and `f ( )` gets the block
-`{ }` in front of it; the reported function has length 0 and ends where it starts. -/
+/-- Without position order the statement fails for Python (so `hpos` cannot be dropped in
+`measurement_wf`): the block of `def a ( )` consists of the "lines" `:` and `x pass`;
+`tokens.index` of its last token finds the equal token at index 0, so the block is `[16, 1)`.
+It lies inside the block `[11, 20)` of `o`, which encloses the header `def g ( )` = `[12, 16)`,
+and starts at the header's end, so `g` gets it: the reported function `g` has length 0 and ends
+(at token 0) before it starts. -/
 theorem measurement_wf_fails_unordered :
     ∃ (L : Language) (all : List Tok) (ms : List Measurement), L ∈ Gen.all.map (·.2) ∧
       scanFile L all = .ok ms ∧ ¬ ∀ m ∈ ms, MeasurementWF (filterTokens false all) m := by
-  refine ⟨Gen.typescript, tsUnordered, [⟨[102], 1, 4, 1, 4, 0⟩], by simp [Gen.all],
-    scanFile_eval (by decide +kernel), ?_⟩
+  refine ⟨Gen.python, pyUnordered, [⟨[111], 10, 1, 300, 4, 6⟩, ⟨[103], 20, 3, 200, 13, 0⟩],
+    by simp [Gen.all], scanFile_eval (by decide +kernel), ?_⟩
   intro hall
-  obtain ⟨_, _, _, _, _, _, _, _, _, hlen, _⟩ := hall _ List.mem_cons_self
+  obtain ⟨_, _, _, _, _, _, _, _, _, hlen, _⟩ := hall ⟨[103], 20, 3, 200, 13, 0⟩ (by simp)
   exact absurd hlen (by decide)
 
 /-- the code tokens of
@@ -153,23 +174,18 @@ def pyNameOutside : List Tok :=
    nmT [103] 4 3, puT [40] 4 4, puT [41] 4 5, puT [58] 4 6,
    kwT [112,97,115,115] 5 5]
 
-/-- FINDING (also observed on the Python program: `g` is reported with span 3:7-3:10).  On
-position-ordered Python tokens the name of a reported function can lie outside its span: the
-header `def g ( )` runs over two lines, the block of `f` is the single token `def` on line 3
-(line 4 is dedented), and `_build_scopes_from_headers_and_blocks` gives this block, which lies
-inside the block of `o` that encloses the header `def g ( )`, to `g`.  The measurement of `g`
-spans only the token `def`. -/
-theorem measurement_wf_fails_python :
-    ∃ (all : List Tok) (ms : List Measurement),
-      (filterTokens false all).Pairwise
-        (fun a b => a.line < b.line ∨ (a.line = b.line ∧ a.col < b.col)) ∧
-      (∀ t ∈ filterTokens false all, t.val ≠ []) ∧
-      scanFile Gen.python all = .ok ms ∧ ¬ ∀ m ∈ ms, MeasurementWF (filterTokens false all) m := by
-  refine ⟨pyNameOutside, [⟨[111], 1, 1, 5, 9, 4⟩, ⟨[103], 3, 7, 3, 10, 1⟩], by decide +kernel,
-    by decide +kernel, scanFile_eval (by decide +kernel), ?_⟩
-  intro hall
-  have := (hall ⟨[103], 3, 7, 3, 10, 1⟩ (by simp)).spanCheck
-  exact absurd this (by decide +kernel)
+/-- REGRESSION for the repaired defect.  Before the repair of `_find_scope_blocks_indices` this
+input produced a measurement `g` 3:7-3:10 whose name token lay outside its span (the block of
+`f`, the single token `def` on line 3, was handed to the header `def g ( )`).  Now no measurement
+is reported for `g`; `f` keeps its own block, and every measurement is well-formed. -/
+example :
+    let ms : List Measurement := [⟨[111], 1, 1, 5, 9, 3⟩, ⟨[102], 2, 3, 3, 10, 2⟩]
+    scanFile Gen.python pyNameOutside = .ok ms ∧ (∀ m ∈ ms, m.name ≠ [103]) ∧
+    ∀ m ∈ ms, MeasurementWF (filterTokens false pyNameOutside) m := by
+  have hscan : scanFile Gen.python pyNameOutside =
+      .ok [⟨[111], 1, 1, 5, 9, 3⟩, ⟨[102], 2, 3, 3, 10, 2⟩] := scanFile_eval (by decide +kernel)
+  exact ⟨hscan, by decide,
+    measurement_wf Gen.python (by simp [Gen.all]) _ _ (by decide +kernel) hscan⟩
 
 /-! ## line total -/
 
@@ -195,8 +211,9 @@ theorem line_order (L : Language) (hL : L ∈ Gen.all.map (·.2)) (all : List To
     (h : scanFile L all = .ok ms) :
     ∀ m ∈ ms, (m.sl < m.el ∨ (m.sl = m.el ∧ m.sc < m.ec)) ∧ m.sl ≤ m.el := by
   intro m hm
-  obtain ⟨i, j, _, _, _, hij, _, _, ⟨ti, hti, hs⟩, ⟨tj, htj, he⟩, _⟩ :=
-    measurement_wf_partial L hL all ms hpos h m hm
+  obtain ⟨i, j, k, hik, hkj, _, ⟨ti, hti, hs⟩, ⟨tj, htj, he⟩, _⟩ :=
+    measurement_wf L hL all ms hpos h m hm
+  have hij : i ≤ j := Nat.le_trans hik hkj
   have h1 : ti.line < tj.line ∨ (ti.line = tj.line ∧ ti.col ≤ tj.col) := by
     rcases Nat.lt_or_ge i j with hlt | hge
     · have : ti.before tj := PosOrdered.before hpos hlt hti htj
@@ -305,26 +322,24 @@ example :
   have hpos : (filterTokens false cToks).Pairwise
       (fun a b => a.line < b.line ∨ (a.line = b.line ∧ a.col < b.col)) := by decide +kernel
   have hval : ∀ t ∈ filterTokens false cToks, t.val ≠ [] := by decide +kernel
-  exact ⟨hscan, measurement_wf_brace _ hL rfl _ _ hpos hscan, line_order _ hL _ _ hpos hval hscan,
+  exact ⟨hscan, measurement_wf_brace _ hL rfl _ _ hscan, line_order _ hL _ _ hpos hval hscan,
     source_order _ hL _ _ hpos hscan⟩
 
 /-- Python: two functions -/
 example :
     let ms : List Measurement := [⟨[102], 1, 1, 2, 7, 2⟩, ⟨[103], 3, 1, 4, 7, 2⟩]
     scanFile Gen.python pyToks = .ok ms ∧
+    (∀ m ∈ ms, MeasurementWF (filterTokens false pyToks) m) ∧
     (∀ m ∈ ms, (m.sl < m.el ∨ (m.sl = m.el ∧ m.sc < m.ec)) ∧ m.sl ≤ m.el) ∧
-    ms.Pairwise (fun a b => a.sl < b.sl ∨ (a.sl = b.sl ∧ a.sc < b.sc)) ∧
-    (∀ m ∈ ms, 1 ≤ m.len) := by
+    ms.Pairwise (fun a b => a.sl < b.sl ∨ (a.sl = b.sl ∧ a.sc < b.sc)) := by
   have hL : Gen.python ∈ Gen.all.map (·.2) := by simp [Gen.all]
   have hscan : scanFile Gen.python pyToks = .ok [⟨[102], 1, 1, 2, 7, 2⟩, ⟨[103], 3, 1, 4, 7, 2⟩] :=
     scanFile_eval (by decide +kernel)
   have hpos : (filterTokens false pyToks).Pairwise
       (fun a b => a.line < b.line ∨ (a.line = b.line ∧ a.col < b.col)) := by decide +kernel
   have hval : ∀ t ∈ filterTokens false pyToks, t.val ≠ [] := by decide +kernel
-  refine ⟨hscan, line_order _ hL _ _ hpos hval hscan, source_order _ hL _ _ hpos hscan, ?_⟩
-  intro m hm
-  obtain ⟨_, _, _, _, _, _, _, _, _, _, _, h1, _⟩ := measurement_wf_partial _ hL _ _ hpos hscan m hm
-  exact h1
+  exact ⟨hscan, measurement_wf _ hL _ _ hpos hscan, line_order _ hL _ _ hpos hval hscan,
+    source_order _ hL _ _ hpos hscan⟩
 
 /-- JavaScript: one function per header pattern; `hdist` holds -/
 example :
@@ -344,7 +359,7 @@ example :
   obtain ⟨hs, hhs, hp⟩ := hex
   have hdist : (hs.map (·.rng.s)).Nodup := by
     simp only [Bool.and_eq_true, decide_eq_true_eq] at hp; exact hp.1
-  exact ⟨hscan, measurement_wf_brace _ hL rfl _ _ hpos hscan,
+  exact ⟨hscan, measurement_wf_brace _ hL rfl _ _ hscan,
     source_order_partial _ hL _ _ _ hpos hhs hdist hscan⟩
 
 /-- JavaScript again, through the general theorem -/
